@@ -440,6 +440,14 @@ func (ctx *RenderContext) CallMacro(w io.Writer, name string, args []interface{}
 
 // CallFunction calls a function with the given arguments
 func (ctx *RenderContext) CallFunction(name string, args []interface{}) (interface{}, error) {
+	// Inside a sandbox every call of a registered function is checked against the
+	// security policy (calls of macros are not function calls in this sense)
+	if ctx.sandboxed && ctx.env != nil && ctx.env.securityPolicy != nil {
+		if _, isFunction := ctx.env.functions[name]; isFunction && !ctx.env.securityPolicy.IsFunctionAllowed(name) {
+			return nil, NewFunctionViolation(name)
+		}
+	}
+
 	// Check if it's a function in the environment
 	if ctx.env != nil {
 		if fn, ok := ctx.env.functions[name]; ok {
